@@ -15,7 +15,7 @@ TITLE = 'df_slice keeps exactly the rows in the interval; stitching switches at 
 STATEMENT = ('df_slice(ts, lb, ub, openclose) = the rows with lb </<= t and t </<= ub per the two brackets (time-of-day bounds compare '
              'the time of day, start > end wraps); stitching takes (ub[i-1], ub[i]] from series i (column j from series i+j), each '
              'timestamp once; df_unslice then stitching again reproduces the frame')
-LEAN_FILES = ['Basic', 'TSBasic', 'Slice', 'SliceDriver', 'DfSliceLemmas', 'DfSliceNaLemmas', 'DfSliceBcastLemmas', 'DfSliceFrameLemmas', 'BitempLemmas', 'C13']
+LEAN_FILES = ['Basic', 'TSBasic', 'Slice', 'SliceDriver', 'DfSliceLemmas', 'DfSliceNaLemmas', 'DfSliceBcastLemmas', 'DfSliceFrameLemmas', 'DfSliceOpenLemmas', 'BitempLemmas', 'C13']
 RULE = ('distinct protocol lines (a single slice, a stitching call or an unslice round trip) on which the implementation returned '
         'a non-empty series / frame')
 TRUSTED = ['correspondence harness (pv.engine, pv.proto) and generators of pv.props.c13',
@@ -31,7 +31,8 @@ ASSUMPTIONS = ['pandas: boolean-mask selection keeps the rows whose mask is True
                'declared, not generated (review t4): stamps with nanoseconds (`index.time` drops them: 06:00:00.000000001 passes `<= 06:00`; the model counts microseconds); an empty '
                'member spelled `pd.Series([], dtype=float)` (RangeIndex; probed: stitches like the DatetimeIndex-empty one that IS generated); a bound list that is neither non-decreasing '
                'nor non-increasing (df_unslice raises ValueError through `_is_non_decreasing` since e2719c8, the model reverses - outside the quantifier "increasing or decreasing"). '
-               'ONE series with ONE bound is generated (stitch-*, roundtrip-* with m = 1) and proved (stitch_single_eq / _iff)']
+               'ONE series with ONE bound is generated (stitch-*, roundtrip-* with m = 1) and proved (stitch_single_eq / _iff)',
+               'bound lists with an UNBOUNDED end (round k4): a None as the last upper / first lower bound is modelled (directionO / normaliseO / stitchO / unsliceO) and generated (stitch-*+open-end, roundtrip-open-end*); an INNER None raises TypeError in code and model; [None, d] (two bounds, does not spell a direction) and None beside times of day are not generated. Theorems unslice_restitch_open / _open_decreasing cover the ub-only spellings [.., None] and [None, ..]; None in lower-bound lists / both lists is sampled']
 
 D0 = datetime.datetime(2020, 1, 1)
 H = datetime.timedelta(hours=1)
@@ -55,7 +56,7 @@ def enc_bound(b):
 
 
 def enc_dates(ds):
-    return 'N' if ds is None else '(L' + ''.join(' ' + enc(d) for d in ds) + ')'
+    return 'N' if ds is None else '(L' + ''.join(' ' + ('N' if d is None else enc(d)) for d in ds) + ')'
 
 
 OMIT = 'omit'      # openclose not passed at all: df_slice's own default '(]'
@@ -125,7 +126,7 @@ def dec_bound(sx):
 
 
 def dec_dates(sx):
-    return None if sx == 'N' else [proto.dec(x) for x in sx[1:]]
+    return None if sx == 'N' else [None if x == 'N' else proto.dec(x) for x in sx[1:]]
 
 
 def dec_member(sx):
@@ -329,7 +330,16 @@ def gen_stitch(rng, tier):
         elif r < 0.3:
             lo = [day(b) for b in rand_bounds(rng, m)]
             lb, ub, tag = lo, bs, 'stitch-both'
-        if rng.random() < 0.25 and m >= 2:
+        if m >= 2 and rng.random() < 0.15:
+            # "a missing bound being unbounded" inside a bound LIST: the last upper / the first lower bound is None
+            # (`_is_non_decreasing` sets a None at either end aside); m >= 3 for the decreasing spelling below, two
+            # bounds [None, d] do not spell a direction
+            if ub is not None:
+                ub = ub[:-1] + [None]
+            if lb is not None and (ub is None or rng.random() < 0.5):
+                lb = [None] + lb[1:]
+            tag += '+open-end'
+        if rng.random() < 0.25 and m >= 2 and not ('+open-end' in tag and m < 3):
             dfs = dfs[::-1]
             lb = lb[::-1] if lb else lb
             ub = ub[::-1] if ub else ub
@@ -358,6 +368,20 @@ def gen_stitch(rng, tier):
         if m >= 2 and rng.random() < 0.3:
             # the quantifier's DECREASING bound lists: series and bounds in the reverse order; df_slice reverses both,
             # df_unslice has to read the bounds the same way and hand its series back in the order of the bounds it was given
+            dfs, ub, tag = dfs[::-1], ub[::-1], tag.replace('roundtrip-', 'roundtrip-decreasing-')
+        yield dict(tag=tag, lines=[roundtrip_line(dfs, ub, n)])
+    # the round trip under an UNBOUNDED last bound (repo fix C13-U2; theorem `unslice_restitch_open`): df_unslice must file
+    # the unbounded series under None in the LAST place (first for the decreasing spelling), the re-stitch must reproduce the frame
+    for _ in range(n_rt // 4):
+        m = rng.choice([2, 3, 3, 4])
+        nan = rng.choice([0.0, 0.0, 0.2])
+        dfs = [rand_series_days(rng, nan=nan) for _ in range(m)]
+        ub = [day(b) for b in rand_bounds(rng, m - 1, strict=True)] + [None]
+        n = rng.choice(list(range(1, m + 1)))
+        tag = 'roundtrip-open-end-n%d' % min(n, 3) + ('+empty' if any(len(p) == 0 for p in dfs) else '')
+        if nan:
+            tag += '+nan' + ('+all-nan-row' if has_all_nan_row(dfs, ub, n) else '')
+        if m >= 3 and rng.random() < 0.3:
             dfs, ub, tag = dfs[::-1], ub[::-1], tag.replace('roundtrip-', 'roundtrip-decreasing-')
         yield dict(tag=tag, lines=[roundtrip_line(dfs, ub, n)])
     # series holding NaN values: the statement does not exclude them; a stitched row that is NaN throughout is lost by
@@ -552,9 +576,15 @@ def gen_slices(rng, tier):
 
 def has_all_nan_row(dfs, ub, n):
     """does the frame the statement prescribes hold a row that is NaN in every column?"""
-    if len(ub) >= 2 and all(a > b for a, b in zip(ub, ub[1:])):
+    if len(ub) >= 3 and ub[0] is None:
+        dfs, ub = dfs[::-1], ub[::-1]                    # [None, d_k .. d_1]: the decreasing spelling of an open last bound
+    closed = ub[:-1] if (len(ub) >= 2 and ub[-1] is None) else ub
+    if any(b is None for b in closed):
+        return False
+    if ub is closed and len(ub) >= 2 and all(a > b for a, b in zip(ub, ub[1:])):
         dfs, ub = dfs[::-1], ub[::-1]                    # a decreasing bound list is the increasing one read backwards
-    if len(ub) != len(dfs) or any(a >= b for a, b in zip(ub, ub[1:])):
+        closed = ub
+    if len(ub) != len(dfs) or any(a >= b for a, b in zip(closed, closed[1:])):
         return False
     _, rows = py_stitch(dfs, ub, n)
     return any(all(v is None for v in vs) for _, vs in rows)
